@@ -789,7 +789,7 @@ def _r104_eof(P, u, rep):
             bad = bad or 'the conditional stack is tested before the input has been processed'
         if empty and o[0] == 'error':
             bad = bad or 'balanced input is rejected at end of input'
-    if seen != {True, False}:
+    if bad is None and seen != {True, False}:
         rep.undecided('R10.4', '%s:%s:eof-check' % (U, fn), 'could not follow preprocess() for both an empty and a non-empty conditional stack')
         return
     rep.ob('R10.4', '%s:%s:diagnoses-open-conditional-at-eof' % (U, fn), bad is None, bad or '', where=where)
@@ -1133,7 +1133,7 @@ def r105(P, u, T, rep):
                     fail('identifiers-become-0', 'a token that is not an identifier is replaced by 0', ctx)
             if hasattr(ctx, 'after') and ctx.after.cands != [E['TK_EOF']]:
                 fail('rejects-trailing-tokens', 'tokens left over after the constant expression are accepted silently', ctx)
-    if nret == 0 or not seen_ident:
+    if nret == 0 or (not seen_ident and not fails):
         rep.undecided('R10.5', '%s:%s:no-path' % (U, fn), 'eval_const_expr: no returning path with an identifier in the expanded line could be followed')
         return
     if not seen_trailing_err:
@@ -1345,9 +1345,458 @@ def _lin_diff(a, b):
     return d if isinstance(d, int) else None
 
 
+# ------------------------------------------------------------------------------------------------ R10.8
+def _ev_result(ctx, v):
+    """the call event that produced value v"""
+    for e in ctx.events:
+        if e[0] == 'call' and len(e) > 4 and e[4] is v:
+            return e
+    return None
+
+
 def r108(P, u, T, rep, dres):
-    pass
+    rep.rule('R10.8', 'a quoted #include probes the directory of the including file before the include path, an angle-bracket one does not; #include_next continues the '
+             'previous search; `#pragma once` is keyed by the path string include_file is later called with; -include files are tokenised in option order in '
+             'front of the main file; -D/-U act in command-line order', floor=8)
+    fnline = u.fn('preprocess2').line
+    if 'include' not in dres or 'include_next' not in dres:
+        rep.undecided('R10.8', '%s:preprocess2:include-arms' % U, 'the #include / #include_next arms of the dispatcher could not be followed')
+    else:
+        it, res = dres['include']
+        fails = {}
+        seen = set()
+        line = fnline
+        for ctx, out in res:
+            o = outcome(out)
+            line = _arm_line(ctx, line)
+            if o[0] != 'resume':
+                continue
+            rd = calls(ctx, 'read_include_filename')
+            inc = calls(ctx, 'include_file')
+            if len(rd) != 1 or len(inc) != 1 or not hasattr(ctx, 'dquote'):
+                fails.setdefault('reads-one-filename', ('the #include arm does not read one file name and include one file', ctx.trail))
+                continue
+            fname = rd[0][4]
+            dq = ctx.dquote.cands
+            probes = calls(ctx, 'file_exists')
+            search = calls(ctx, 'search_include_paths')
+            path = settle(it, inc[0][2][1]) if len(inc[0][2]) > 1 else None
+            # is the probed path built from the including file's directory?
+            local = None
+            for pr in probes:
+                pth = pr[2][0] if pr[2] else None
+                fa = _format_args(ctx, pth)
+                if fa is not None and len(fa) == 3 and fa[0] == '%s/%s' and fa[2] is fname:
+                    dn = _ev_result(ctx, fa[1])
+                    src = _ev_result(ctx, dn[2][0]) if dn and dn[1] == 'dirname' and dn[2] else None
+                    arg = src[2][0] if src and src[1] == 'strdup' and src[2] else (dn[2][0] if dn and dn[2] else None)
+                    if isinstance(arg, Sym) and arg.name.endswith('.file.name') and arg.name.startswith('a'):
+                        local = pr
+            absolute = any("filename[0] != 47" in t and t.startswith('!') for t in ctx.trail) or any("filename[0] == 47" in t and not t.startswith('!') for t in ctx.trail)
+            if dq == [0, 1] and not absolute:
+                # the arm does not distinguish the two forms: judge it as both
+                seen.update(('quoted', 'angle'))
+                if local is None:
+                    fails.setdefault('quoted-probes-includer-directory', ('a quoted #include of a relative name does not first look in the directory of the including file', ctx.trail))
+                else:
+                    fails.setdefault('angle-skips-includer-directory', ('an angle-bracket #include looks in the directory of the including file first '
+                                                                        '(`#include <stdio.h>` next to a local stdio.h picks the local file)', ctx.trail))
+            elif dq == [1] and not absolute:
+                seen.add('quoted')
+                if local is None:
+                    fails.setdefault('quoted-probes-includer-directory', ('a quoted #include of a relative name does not first look in the directory of the including file', ctx.trail))
+                    continue
+                if search and ctx.events.index(search[0]) < ctx.events.index(local):
+                    fails.setdefault('quoted-probes-includer-directory', ('the include path is searched before the directory of the including file', ctx.trail))
+                found = truth_in(it, ctx, local[4])
+                if found:
+                    if search or path is not local[2][0]:
+                        fails.setdefault('quoted-prefers-includer-directory', ('a file found next to the including file is not the one that is included', ctx.trail))
+                else:
+                    _check_fallback(it, ctx, fails, search, fname, path, 'search_include_paths')
+            elif dq == [0] or (absolute and dq in ([0], [1], [0, 1])):
+                seen.add('angle' if dq == [0] else 'absolute')
+                if local is not None and dq == [0]:
+                    fails.setdefault('angle-skips-includer-directory', ('an angle-bracket #include looks in the directory of the including file', ctx.trail))
+                _check_fallback(it, ctx, fails, search, fname, path, 'search_include_paths')
+            tokarg = inc[0][2][0] if inc[0][2] else None
+            if tokarg is not rd[0][5]:
+                fails.setdefault('rest-follows-the-file', ('include_file is not given the rest of the line after the file name as the continuation', ctx.trail))
+        if not {'quoted', 'angle'} <= seen:
+            rep.undecided('R10.8', '%s:preprocess2:include/forms' % U, 'could not follow both the quoted and the angle-bracket form of #include (%s)' % sorted(seen))
+        for k in ('reads-one-filename', 'quoted-probes-includer-directory', 'quoted-prefers-includer-directory', 'angle-skips-includer-directory',
+                  'falls-back-to-include-path', 'rest-follows-the-file'):
+            f = fails.get(k)
+            rep.ob('R10.8', '%s:preprocess2:include/%s' % (U, k), f is None, f[0] if f else '', where='%s:%d' % (U, line), facts={'path': f[1]} if f else None)
+        # include_next
+        it, res = dres['include_next']
+        fails = {}
+        n = 0
+        for ctx, out in res:
+            o = outcome(out)
+            line = _arm_line(ctx, line)
+            if o[0] != 'resume':
+                continue
+            rd = calls(ctx, 'read_include_filename')
+            inc = calls(ctx, 'include_file')
+            if len(rd) != 1 or len(inc) != 1:
+                fails.setdefault('falls-back-to-include-path', ('the #include_next arm does not read one file name and include one file', ctx.trail))
+                continue
+            n += 1
+            if calls(ctx, ('search_include_paths', 'file_exists')):
+                fails.setdefault('falls-back-to-include-path', ('#include_next restarts the search instead of continuing after the directory of the current file', ctx.trail))
+            _check_fallback(it, ctx, fails, calls(ctx, 'search_include_next'), rd[0][4], settle(it, inc[0][2][1]) if len(inc[0][2]) > 1 else None, 'search_include_next')
+        if n == 0:
+            rep.undecided('R10.8', '%s:preprocess2:include_next/arm' % U, 'the #include_next arm could not be followed')
+        else:
+            f = fails.get('falls-back-to-include-path')
+            rep.ob('R10.8', '%s:preprocess2:include_next/continues-the-search' % U, f is None, f[0] if f else '', where='%s:%d' % (U, line), facts={'path': f[1]} if f else None)
+    _r108_once(P, u, T, rep)
+    _r108_cc1(P, rep)
+
+
+def _format_args(ctx, v):
+    if isinstance(v, Term) and v.op == 'format':
+        return list(v.args)
+    e = _ev_result(ctx, v)
+    if e is not None and e[1] == 'format':
+        return list(e[2])
+    return None
+
+
+def _check_fallback(it, ctx, fails, search, fname, path, callee):
+    if len(search) != 1 or not search[0][2] or search[0][2][0] is not fname:
+        fails.setdefault('falls-back-to-include-path', ('the file name read from the directive is not looked up (once) with %s' % callee, ctx.trail))
+        return
+    found = truth_in(it, ctx, search[0][4])
+    if found is True and path is not settle(it, search[0][4]):
+        fails.setdefault('falls-back-to-include-path', ('the path found by %s is not the file that is included' % callee, ctx.trail))
+    if found is False and path is not fname:
+        fails.setdefault('falls-back-to-include-path', ('a name that is not found on the include path is not handed on as given (for the diagnostic)', ctx.trail))
+
+
+def _r108_once(P, u, T, rep):
+    """#pragma once: key written = <token of the file>->file->name; include_file looks `path` up in the same table and
+    tokenize_file(path) -> new_file(path, ..) makes path the file->name of every token of that file"""
+    where = '%s:%d' % (U, u.fn('include_file').line)
+    cfg = pp2_config(u)
+    cfg['cut'] = dict(cfg['cut'])
+    cfg['cut']['hashmap_put'] = _h_map('hashmap_put', None)
+
+    def mk(ctx):
+        specs = T.line('a', [('#', 'TK_PUNCT'), ('pragma', 'TK_IDENT'), ('once', 'TK_IDENT')]) + T.line('b', [('x', 'TK_IDENT'), ('y', 'TK_IDENT')])
+        ts = T.chain(specs)
+        ctx.toks = ts
+        ctx.tokidx = {id(t): i for i, t in enumerate(ts)}
+        return [ts[0]]
+    it = PPInterp(P, u, cfg)
+    keys = []
+    tabs = set()
+    for ctx, out in it.explore('preprocess2', mk, max_paths=100):
+        for e in calls(ctx, 'hashmap_put'):
+            tabs.add(e[5])
+            keys.append(e[2][1] if len(e[2]) > 1 else None)
+    if not keys:
+        rep.undecided('R10.8', '%s:preprocess2:pragma-once/arm' % U, 'the `#pragma once` arm records nothing the analysis can see')
+        return
+    ok_key = all(isinstance(k, Sym) and k.name.endswith('.file.name') and k.name[0] == 'a' for k in keys)
+    rep.ob('R10.8', '%s:preprocess2:pragma-once/keyed-by-file-name' % U, ok_key,
+           '`#pragma once` is not recorded under the name of the file the directive stands in (recorded: %r)' % (keys,), where='%s:%d' % (U, u.fn('preprocess2').line))
+    # include_file: lookup in that table with key `path`
+    looked = False
+    for c in u.fn('include_file').calls(('hashmap_get', 'hashmap_get2')):
+        a = c.args()
+        if a and a[0].src() in tabs and len(a) > 1:
+            pr = a[1].strip()
+            params = u.params('include_file')
+            if pr.kind == 'DeclRefExpr' and len(params) > 1 and pr.ref_id == params[1].id:
+                looked = True
+    rep.ob('R10.8', '%s:include_file:pragma-once/looked-up-by-path' % U, looked,
+           'include_file does not look its path argument up in the `#pragma once` table', where=where)
+    # tokenize_file(path) names the file `path`
+    tu, tf = P.find_function('tokenize_file')
+    nu, nf = P.find_function('new_file')
+    if tf is None or nf is None:
+        rep.undecided('R10.8', 'tokenize.c:tokenize_file:file-name', 'tokenize_file / new_file vanished')
+        return
+    ok = False
+    tparams = [c for c in tf.inner if c.kind == 'ParmVarDecl']
+    for c in tf.calls('new_file'):
+        a = c.args()
+        if a and a[0].strip().kind == 'DeclRefExpr' and tparams and a[0].strip().ref_id == tparams[0].id:
+            ok = True
+    rep.ob('R10.8', '%s:tokenize_file:file-named-by-path' % tu.name, ok,
+           'tokenize_file does not name the File after the path it was asked to read: `#pragma once` and include_file would use different keys',
+           where='%s:%d' % (tu.name, tf.line))
+    from ..interp import Interp
+    it2 = Interp(P, nu, {})
+    okn = False
+    for ctx, out in it2.explore('new_file', lambda ctx: [Sym('name', 'char *'), Sym('no', 'int'), Sym('contents', 'char *')]):
+        if out[0] == 'ret' and isinstance(out[1], Obj):
+            nm = out[1].fields.get('name')
+            okn = isinstance(nm, Sym) and nm.name == 'name'
+    rep.ob('R10.8', '%s:new_file:records-name' % nu.name, okn, 'new_file does not store the given name as File.name', where='%s:%d' % (nu.name, nf.line))
+
+
+def _r108_cc1(P, rep):
+    mu = P.unit('main.c')
+    if 'cc1' not in mu.functions:
+        raise AnalysisBroken('anchor cc1 vanished from main.c')
+    where = 'main.c:%d' % mu.fn('cc1').line
+
+    def h_tok(it, ctx, n, args):
+        r = Obj('Token', lazy=True, label=ctx.fresh('tokens'))
+        ctx.emit('call', 'must_tokenize_file', args, n.line, r, None)
+        return r
+
+    def h_app(it, ctx, n, args):
+        r = Obj('Token', lazy=True, label=ctx.fresh('joined'))
+        ctx.emit('call', 'append_tokens', args, n.line, r, None)
+        return r
+
+    def h_pp(it, ctx, n, args):
+        ctx.emit('call', 'preprocess', args, n.line, None, None)
+        raise NoReturn(RESUME, [args[0] if args else None], n.line)
+    gl = {'opt_include': lambda ctx: Obj('StringArray', lazy=True, label='opt_include'), 'base_file': lambda ctx: Sym('base_file', 'char *')}
+    it = PPInterp(P, mu, {'cut': {'must_tokenize_file': h_tok, 'append_tokens': h_app, 'preprocess': h_pp, 'file_exists': None, 'search_include_paths': None,
+                                  'strerror': None, '__errno_location': None}, 'globals': gl, 'loop_limit': 2})
+    bad = None
+    nmax = 0
+    for ctx, out in it.explore('cc1', lambda ctx: [], max_paths=300):
+        o = outcome(out)
+        if o[0] != 'resume':
+            continue
+        toks = calls(ctx, 'must_tokenize_file')
+        apps = calls(ctx, 'append_tokens')
+        if not toks:
+            bad = bad or 'the input is preprocessed without having been tokenised'
+            continue
+        base = toks[-1]
+        if not (base[2] and isinstance(base[2][0], Sym) and base[2][0].name == 'base_file'):
+            bad = bad or 'the main file is not the last file tokenised before preprocessing: -include files must come in front of it'
+            continue
+        incs = toks[:-1]
+        nmax = max(nmax, len(incs))
+        # -include files in option order: opt_include.data[0], [1], ...
+        idxs = []
+        for k, e in enumerate(incs):
+            a = settle(it, e[2][0]) if e[2] else None
+            src = a
+            sr = _ev_result(ctx, a)
+            if sr is not None and sr[1] == 'search_include_paths' and sr[2]:
+                src = sr[2][0]
+            i = src.args[1] if isinstance(src, Term) and src.op == 'idx' and len(src.args) == 2 else None
+            idxs.append(i)
+        if idxs != list(range(len(incs))):
+            bad = bad or 'the -include files are not tokenised in command-line order (%r)' % (idxs,)
+        # fold: acc = append_tokens(acc, t) for every file in order
+        acc = 0
+        okf = len(apps) == len(toks)
+        for e, t in zip(apps, toks):
+            a0 = settle(it, e[2][0]) if len(e[2]) > 0 else None
+            a1 = settle(it, e[2][1]) if len(e[2]) > 1 else None
+            if not ((a0 is acc or (isinstance(a0, int) and isinstance(acc, int) and a0 == acc)) and a1 is t[4]):
+                okf = False
+            acc = e[4]
+        if not okf or o[1] is not acc:
+            bad = bad or 'the token lists are not joined front to back in the order -include files, main file before preprocessing'
+    if nmax == 0:
+        rep.undecided('R10.8', 'main.c:cc1:include-option', 'no path of cc1 with a -include file could be followed')
+        return
+    rep.ob('R10.8', 'main.c:cc1:include-files-before-main-file', bad is None, bad or '', where=where)
+
+
+# ------------------------------------------------------------------------------------------------ R10.6
+def _m_push(it, ctx, n, args):
+    arr = args[0]
+    if not isinstance(arr, Obj):
+        raise Unsupported('strarray_push on %r' % (arr,))
+    d = arr.fields.get('data')
+    if not isinstance(d, Arr):
+        d = Arr([], label='data')
+        arr.fields['data'] = d
+    d.elems.append(args[1])
+    arr.fields['len'] = len(d.elems)
+    fd = n.enclosing('FunctionDecl')
+    ctx.emit('push', n.args()[0].src(), args[1], n.line, fd.name if fd else None, arr)
+    return None
+
+
+def _zero_globals(mu):
+    g = {}
+    for name, d in mu.globals.items():
+        t = (d.dtype or d.type or '').strip()
+        if 'init' in d.d or t.endswith(']') or t.replace('struct ', '') in mu.records:
+            continue
+        g[name] = 0
+    return g
+
+
+def _main_cfg(extra_cut=None, mu=None):
+    cut = {'define': None, 'undef_macro': None, 'define_macro': None, 'quote_makefile': None, 'hashmap_test': None, 'init_macros': None,
+           'atexit': None, 'strdup': None, 'dirname': None}
+    if mu is not None:
+        # helpers of main.c are inlined, but their calls are recorded so that a value handed to one is seen
+        for f in mu.functions:
+            if f not in cut and f not in ('parse_args', 'take_arg', 'main', 'add_default_include_paths', 'usage'):
+                cut[f] = _passthrough(f)
+    cut.update(extra_cut or {})
+    return {'models': {'strarray_push': _m_push}, 'cut': cut,
+            'globals': _zero_globals(mu) if mu is not None else {},
+            'noreturn': ['error', 'error_at', 'error_tok', 'exit', '_exit', 'abort', '__assert_fail', 'usage'], 'loop_limit': 1}
+
+
+def _passthrough(name):
+    def h(it, ctx, n, args):
+        ctx.emit('call', name, args, n.line, None, None)
+        uu, fn = it.find_def(name)
+        if fn is None:
+            raise Unsupported('no definition of %s' % name)
+        return it.call_fn(uu, fn, args)
+    return h
+
+
+def _argv(words):
+    return [len(words), Arr(list(words) + [0], label='argv')]
 
 
 def r106(P, rep):
-    pass
+    rep.rule('R10.6', 'search order and option plumbing: include_paths is filled -I (argv order), then the system directories, then -idirafter; every option in '
+             'take_arg\'s table has a handler that takes the next argument as its value, and every handler that takes the next argument is in the table', floor=16)
+    mu = P.unit('main.c')
+    for f in ('parse_args', 'take_arg', 'main', 'add_default_include_paths'):
+        if f not in mu.functions:
+            raise AnalysisBroken('anchor function %s vanished from main.c' % f)
+    pa = mu.fn('parse_args')
+    where = 'main.c:%d' % pa.line
+    # options with an exact-match handler, and the table
+    exact = []
+    for c in pa.calls('strcmp'):
+        a = c.args()
+        if len(a) == 2 and a[1].str_value() is not None and a[1].str_value().startswith('-'):
+            if a[1].str_value() not in exact:
+                exact.append(a[1].str_value())
+    table = []
+    for n in mu.fn('take_arg').walk():
+        if n.kind == 'StringLiteral' and n.str_value() and n.str_value().startswith('-') and n.str_value() not in table:
+            table.append(n.str_value())
+    if len(exact) < 10 or len(table) < 3:
+        rep.undecided('R10.6', 'main.c:parse_args:options', 'only %d exact-match options and %d table entries recognised' % (len(exact), len(table)))
+        return
+    VAL = 'c'
+    for o in sorted(set(exact) | set(table)):
+        # is o in the table? (take_arg evaluated on o)
+        it = PPInterp(P, mu, _main_cfg(mu=mu))
+        tr = [out for ctx, out in it.explore('take_arg', lambda ctx: [o]) if out[0] == 'ret']
+        if len(tr) != 1 or not isinstance(settle(it, tr[0][1]), int):
+            rep.undecided('R10.6', 'main.c:take_arg:table/%s' % o, 'take_arg(%r) could not be evaluated' % o)
+            continue
+        in_table = bool(settle(it, tr[0][1]))
+        it = PPInterp(P, mu, _main_cfg(mu=mu))
+        try:
+            res = it.explore('parse_args', lambda ctx: _argv(['chibicc', o, VAL, 'in.c']), max_paths=50)
+        except Unsupported as e:
+            rep.undecided('R10.6', 'main.c:parse_args:option/%s' % o, 'the handler of %s uses a construct the interpreter does not model: %s' % (o, e))
+            continue
+        if len(res) != 1:
+            rep.undecided('R10.6', 'main.c:parse_args:option/%s' % o, 'parse_args on `%s %s in.c` is not deterministic for the analysis (%d paths)' % (o, VAL, len(res)))
+            continue
+        ctx, out = res[0]
+        if out[0] != 'ret':
+            # the option ends the run (--help, -hashmap-test) or rejects: not a value-taking option in this scenario
+            if in_table:
+                rep.ob('R10.6', 'main.c:parse_args:separate-argument-not-consumed/%s' % o, False,
+                       '`%s %s in.c`: the option is in take_arg\'s table (the next argument is reserved for it) but the command line is rejected (%s)' % (o, VAL, out[1]), where=where)
+            continue
+        pushes = [e for e in ctx.events if e[0] == 'push']
+        inputs = [e[2] for e in pushes if e[1] == '&input_paths']
+        consumed = VAL not in inputs
+        line = where
+        if consumed and not in_table:
+            rep.ob('R10.6', 'main.c:take_arg:missing-from-table/%s' % o, False,
+                   'the handler of `%s` takes the next argument as its value but `%s` is not in take_arg\'s table: the pre-scan that guarantees the argument exists '
+                   'skips it, so a trailing `%s` hands NULL to the handler (crash), and a value that looks like an option in the table shifts the pre-scan' % (o, o, o),
+                   where='main.c:%d' % mu.fn('take_arg').line)
+        elif in_table and not consumed:
+            rep.ob('R10.6', 'main.c:parse_args:separate-argument-not-consumed/%s' % o, False,
+                   '`%s` is in take_arg\'s table (so `%s %s` reserves the next argument) but no handler consumes it: `%s` is taken as an input file and the option gets an empty value' % (o, o, VAL, VAL),
+                   where=where)
+        else:
+            rep.ob('R10.6', 'main.c:parse_args:table-agrees/%s' % o, True, '', where=where)
+        if consumed:
+            # the value must be the next argument, not the option's own name
+            vals = [e[2] for e in pushes] + [a for e in calls(ctx) for a in e[2]] + [v for k, v in ctx.globals.items() if isinstance(v, str)]
+            strs = [v for v in vals if isinstance(v, str)]
+            good = VAL in strs
+            selfv = (not good) and o in strs
+            rep.ob('R10.6', 'main.c:parse_args:%s/%s' % ('value-is-next-argument' if good else 'value-not-next-argument', o), good,
+                   '`%s %s`: the handler %s' % (o, VAL, ('stores the option\'s own name as its value and drops `%s`' % VAL) if selfv else 'does not use the next argument as the value'),
+                   where=where, facts={'values seen': strs})
+    _r106_order(P, mu, rep)
+
+
+def _r106_order(P, mu, rep):
+    where = 'main.c:%d' % mu.fn('main').line
+
+    def h_cc1(it, ctx, n, args):
+        raise NoReturn(RESUME, [None], n.line)
+    words = ['chibicc', '-cc1', '-IA', '-idirafter', 'B', '-cc1-input', 'in.c', '-IC', 'x.c']
+    it = PPInterp(P, mu, _main_cfg({'cc1': h_cc1}, mu=mu))
+    try:
+        res = it.explore('main', lambda ctx: _argv(words), max_paths=50)
+    except Unsupported as e:
+        rep.undecided('R10.6', 'main.c:main:search-order', 'main() uses a construct the interpreter does not model: %s' % e)
+        return
+    res = [(c, o) for c, o in res if outcome(o)[0] == 'resume']
+    if len(res) != 1:
+        rep.undecided('R10.6', 'main.c:main:search-order', 'the -cc1 path of main() could not be followed to cc1() (%d paths)' % len(res))
+        return
+    ctx, out = res[0]
+    g = ctx.globals.get('include_paths')
+    d = g.fields.get('data') if isinstance(g, Obj) else None
+    if not isinstance(d, Arr) or not d.elems:
+        rep.undecided('R10.6', 'main.c:main:search-order', 'include_paths is empty when cc1() starts')
+        return
+    seq = d.elems
+    cls = []
+    for v in seq:
+        if v in ('A', 'C'):
+            cls.append('I')
+        elif v in ('B', '-idirafter'):
+            cls.append('after')
+        elif isinstance(v, str) and v in words:
+            cls.append('argv')
+        else:
+            cls.append('system')
+    shown = [v if isinstance(v, str) else '<%r>' % (v,) for v in seq]
+    if 'system' not in cls or 'I' not in cls:
+        rep.undecided('R10.6', 'main.c:main:search-order', 'could not recognise -I and system directories in include_paths: %r' % (shown,))
+        return
+    ivals = [v for v, c in zip(seq, cls) if c == 'I']
+    first_sys = cls.index('system')
+    last_sys = len(cls) - 1 - cls[::-1].index('system')
+    ok_i = ivals == ['A', 'C'] and all(c == 'I' for c in cls[:2])
+    rep.ob('R10.6', 'main.c:main:search-order/-I-before-system-dirs', ok_i and first_sys >= 2,
+           'with `-IA ... -IC` the search list handed to cc1 starts %r: -I directories must come first, in command-line order' % (shown[:4],), where=where, facts={'include_paths': shown})
+    afters = [i for i, c in enumerate(cls) if c == 'after']
+    if not afters:
+        rep.ob('R10.6', 'main.c:main:search-order/idirafter-missing', False,
+               'with `-idirafter B` the search list handed to cc1 contains no entry for it: %r' % (shown,), where=where, facts={'include_paths': shown})
+    else:
+        ok = min(afters) > last_sys
+        rep.ob('R10.6', 'main.c:main:search-order/%s' % ('idirafter-after-system-dirs' if ok else 'idirafter-before-system-dirs'), ok,
+               'the -idirafter entry is placed at position %d, in front of the system directories (positions %d..%d): a header in an -idirafter directory shadows the '
+               'system header of the same name instead of being a fallback (%r)' % (min(afters), first_sys, last_sys, shown), where=where, facts={'include_paths': shown})
+    stray = [v for v, c in zip(seq, cls) if c == 'argv']
+    rep.ob('R10.6', 'main.c:main:search-order/only-directories', not stray, 'command-line words that are not include directories end up in the search list: %r' % (stray,), where=where)
+    # -D / -U in argv order
+    it = PPInterp(P, mu, _main_cfg(mu=mu))
+    res = it.explore('parse_args', lambda ctx: _argv(['chibicc', '-DX', '-UX', '-D', 'X=2', '-U', 'Y', 'x.c']), max_paths=50)
+    seqs = [[(e[1], e[2][0] if e[2] else None) for e in calls(c, ('define', 'undef_macro', 'define_macro'))] for c, o in res if o[0] == 'ret']
+    want = [('define', 'X'), ('undef_macro', 'X'), ('define', 'X=2'), ('undef_macro', 'Y')]
+    if len(seqs) != 1:
+        rep.undecided('R10.6', 'main.c:parse_args:D-U-order', 'parse_args on a -D/-U command line could not be followed')
+        return
+    norm = [(a if a != 'define_macro' else 'define', b) for a, b in seqs[0]]
+    rep.ob('R10.6', 'main.c:parse_args:D-U-in-argv-order', norm == want,
+           '`-DX -UX -D X=2 -U Y` is applied as %r: definitions and undefinitions must act in command-line order' % (seqs[0],), where='main.c:%d' % mu.fn('parse_args').line)
